@@ -394,6 +394,25 @@ class List(list, base.Symbolic, pg_typing.CustomTyping):
       if isinstance(item, base.TopologyAware):
         item.sym_setpath(utils.KeyPath(idx, new_path))
 
+  def _set_item_by_value_spec(
+      self, key: int, value: Any) -> Optional[base.FieldUpdate]:
+    """Sets an item with the value converted by the value spec being applied.
+
+    This is not an accessor write (`accessor_writable=False` does not apply),
+    but a sealed list refuses it like every other change.
+
+    Args:
+      key: Index of the item.
+      value: The converted value.
+
+    Returns:
+      The field update or None.
+    """
+    if base.treats_as_sealed(self):
+      raise base.WritePermissionError(
+          self._error_message('Cannot set item for a sealed List.'))
+    return self._set_item_without_permission_check(key, value)
+
   def _set_item_without_permission_check(  # pytype: disable=signature-mismatch  # overriding-parameter-type-checks
       self, key: int, value: Any) -> Optional[base.FieldUpdate]:
     """Set or add an item without permission check."""
